@@ -17,19 +17,19 @@ def matches(c):
 
 LEVEL_TEXT = ("Lean theorems about total executable models of all seven parsers (FASTA, Phylip strict/relaxed/multi, Nexus, "
               "Clustal, Stockholm, partition + AddRange; termination = Lean's termination checker, explicit outcomes "
-              "ok/error/exit/panic/hang): for FASTA the outcome theorem over ALL byte strings and options is proved for the "
-              "parser with the proposed patch (fasta_outcome_fixed; likewise Stockholm: stockholm_outcome_fixed) and, for the code as it is, everything except "
-              "non-emptiness (fasta_outcome_partial) with the kernel-checked counter-example; AddRange with the proposed "
-              "guards is proved in bounds and terminating for all 64-bit start/end/modulo (addRange_in_bounds); for every "
-              "other parser the full statement is refuted for the code as it is by kernel-evaluated counter-examples "
-              "(hang / panic / empty success) and stays open for the patched code. Models are tied to /repo by regenerated "
+              "ok/error/exit/panic/hang), parametric in the guards regenerated from the working tree: the full C03 statement "
+              "over ALL byte strings and options is proved for the repaired FASTA, Stockholm and partition parsers "
+              "(fasta_outcome_fixed, stockholm_outcome_fixed, partition_outcome, addRange_in_bounds for all 64-bit "
+              "start/end/modulo); for Phylip (single and multi), Nexus and Clustal the well-formedness of every success is "
+              "proved (…_outcome_partial) while absence of panic/hang is refuted for the unrepaired code by kernel-evaluated "
+              "counter-examples and open for the repaired code. Models are tied to /repo by regenerated "
               "guard facts + differential correspondence on every generated input; the C03 predicate itself is evaluated "
               "by the compiled oracle on the implementation's outcome for every input.")
 LEVEL_NOTE = ("Trusted: Lean kernel; harness + python watchdog (hang = no answer within 3 s on inputs < 1 kB); the naive "
               "header scanners of Spec/Fmt.lean; tools/extract/fmtfacts.go (syntactic recognition of the guards); "
               "bufio/UTF-8 decoding (models are ASCII-only: non-ASCII inputs carry no correspondence obligation but are "
-              "still judged by the predicate). The universal outcome theorems for Phylip, Nexus, Clustal and the "
-              "partition token loops are open: see evidence 'partial'.")
+              "still judged by the predicate). Never-panic / never-hang for the repaired Phylip, Nexus and Clustal "
+              "parsers are open: see evidence 'partial'.")
 TECHNIQUE = "Lean 4 proof (total parser models, container invariant by induction over token lists) + exhaustive-truncation / mutation differential run"
 LEAN_MODULES = ["Gv.Props.C03"]
 REQUIRED_THEOREMS = ["Gv.Props.C03." + n for n in [
@@ -39,7 +39,9 @@ REQUIRED_THEOREMS = ["Gv.Props.C03." + n for n in [
     "nexus_counterexample_hang", "nexus_counterexample_zero_columns", "nexus_counterexample_minus_one",
     "nexus_patched_witnesses", "clustal_counterexample_panic", "clustal_patched_witness",
     "phylip_counterexample_alloc_panic", "phylip_patched_witness",
-    "partition_counterexample_overflow_panic", "partition_patched_witness", "addRange_in_bounds", "newPSet_inv"]]
+    "partition_counterexample_overflow_panic", "partition_patched_witness", "addRange_in_bounds", "newPSet_inv",
+    "partition_outcome", "phylip_outcome_partial", "phylip_multi_wellformed", "clustal_outcome_partial",
+    "nexus_outcome_partial"]]
 TRUSTED = ["bufio.Reader / UTF-8 rune decoding (inputs with bytes >= 128 are judged by the predicate only)",
            "python watchdog: hang = no answer within TIMEOUT",
            "tools/extract/fmtfacts.go: recognises the proposed guards syntactically; the models are parametric in these facts"]
@@ -57,17 +59,17 @@ RULE = ("valid files of each format (python writers + hand-written variants: int
         "non-trivial = differs from every seed file and the first changed byte lies beyond the header")
 
 PARTIAL = [
-    "FASTA: full statement false for the code as it is ('>a' + newline succeeds with 0 rows): fasta_outcome_partial proves all "
-    "clauses except non-emptiness and characterises the zero-row successes; fasta_outcome_fixed proves the full statement "
-    "for the patched parser",
-    "Stockholm: stockholm_outcome_fixed proves the full statement for the patched parser over all byte strings (never "
-    "panic, never hang, never empty); stockholm_outcome_partial covers the code as it is (hang and empty success are "
-    "its only deviations, both witnessed)",
-    "Phylip, Nexus, Clustal, partition parser: executable models + correspondence + kernel-evaluated "
-    "counter-examples for the code as it is; the universal outcome theorems (never panic / never hang / ok => "
-    "well-formed, for all byte strings) for the patched models are stated in Props/C03.lean and OPEN",
-    "AddRange: proved for the guarded code (addRange_in_bounds); the token loops of the partition parser around it are open",
-    "multi-Phylip (ParseMultiple) and ParseAlignmentAuto: modelled in the oracle as folds over the single-parser models; no theorem",
+    "FASTA, Stockholm, partition parser (+AddRange): the full C03 statement is proved for the repaired code over all byte "
+    "strings (fasta_outcome_fixed, stockholm_outcome_fixed, partition_outcome); the unrepaired variants are covered by "
+    "*_partial theorems and kernel-evaluated counter-examples",
+    "Phylip (strict/relaxed, multi): proved: every returned alignment is well formed (phylip_outcome_partial, "
+    "phylip_multi_wellformed); OPEN: never panic / never hang for the repaired parser (fuel sufficiency of the block loops)",
+    "Nexus: proved: a success is non-empty, rectangular, distinct names, and well formed once empty rows are rejected "
+    "(nexus_outcome_partial); OPEN: never panic / never hang for the repaired parser; consistency with declared ntax/nchar "
+    "is checked by the oracle predicate only",
+    "Clustal: proved: a success is non-empty, rectangular, distinct names (clustal_outcome_partial); OPEN: at least one "
+    "column (needs the loop invariant that sequence tokens are non-empty), never panic / never hang for the repaired parser",
+    "ParseAlignmentAuto: modelled in the oracle as a dispatch over the single-parser models; no separate theorem",
     "inputs with bytes >= 128 (UTF-8 decoding) and Phylip allocations of 2^27..2^44 entries: predicate only, no model",
 ]
 
